@@ -298,7 +298,17 @@ def parse_key(s):
     return {k: set(x for x in parts[k].split(";") if x) for k in "LCN"}
 
 
-def gen_cases(rng, n, plans=PLANS):
+def looks_binary(text):
+    """`reuse lint` does not search files that the binaryornot library (not part of the code under test) takes for binary: it
+    judges the first bytes (512 at the time of writing; the library's own constant is used), and a text with many non-ASCII
+    characters — or one whose chunk ends in the middle of a multi-byte character — can look binary to it.  Such documents are not
+    put into lint projects (which files count as binary is not C12's business)."""
+    from binaryornot import helpers
+    data = text.encode("utf-8")
+    return any(bool(helpers.is_binary_string(data[:n])) for n in {helpers.CHUNK_SIZE, 512, 1024})
+
+
+def gen_cases(rng, n, plans=PLANS, textual=False):
     out = []
     i = 0
     while len(out) < n:
@@ -307,6 +317,8 @@ def gen_cases(rng, n, plans=PLANS):
         case = {"plan": plan, "lines": write_doc(rng, plan), "pre": rng.randrange(len(PRES)), "mtail": rng.randrange(len(MARK_TAILS))}
         text, planted = render(case)
         if not planted or len(text.encode("utf-8")) > 3800:
+            continue
+        if textual and looks_binary(text):
             continue
         self_check(text, planted)
         out.append(case)
@@ -453,7 +465,7 @@ class MixLintStream(Stream):
     def cases(self, tier, rng):
         n = 150 if tier == "thorough" else 14
         for _ in range(n):
-            files = gen_cases(rng, rng.randint(4, 8), plans=rng.sample(PLANS, len(PLANS)))
+            files = gen_cases(rng, rng.randint(4, 8), plans=rng.sample(PLANS, len(PLANS)), textual=True)
             for i, f in enumerate(files):
                 f["name"] = rng.choice(["", "", "src/", "docs/deep/"]) + "f%d%s" % (i, rng.choice(self.EXTS))
                 f["sib"] = rng.random() < 0.15
